@@ -202,14 +202,19 @@ func init() {
 					// a self call at every leaf position of the shape (tail or not): (f 2)
 					nl := countLeaves(sh)
 					for pos := 1; pos <= nl; pos++ {
-						for pi := 0; pi < 2; pi++ {
+						for pi := 0; pi < 3; pi++ {
 							if !c.mine(idx) {
 								idx++
 								continue
 							}
 							k := 0
-							pat := pats[pi]
+							pat := pats[pi%2]
 							body := asNode(fillLeaves(cloneTree(sh), &k, func(i int) node {
+								if i == pos && pi == 2 {
+									// the argument re-binds f: this call still goes to the f that was looked up
+									// before the argument, the next one reaches the new function
+									return nCall(nSym("f"), nBegin(nSet("f", nFn(strict("m"), "", nApp("tr", nInt(98), nSym("m")))), nApp("-", nSym("n"), nInt(1))))
+								}
 								if i == pos {
 									return nCall(nSym("f"), nApp("-", nSym("n"), nInt(1)))
 								}
@@ -239,9 +244,9 @@ func init() {
 				r := newRng(c.seed, uint64(idx)*7+uint64(len(sl)))
 				var prog []node
 				if sl == "heap" {
-					prog = genHeapProgram(r)
+					prog = genHeapProgramX(r, true)
 				} else {
-					prog = genProgram(r, wt, 2+r.intn(2))
+					prog = genProgramX(r, wt, 2+r.intn(2))
 				}
 				var lay *layout
 				if r.intn(3) == 0 {
